@@ -149,7 +149,7 @@ def expand_chan(paths, seed, nvar):
         h = _h(extra, [[s["act"], s["args"]] for s in path], seed)
         for k in range(nvar):
             e = dict(extra)
-            e["variant"] = {"grid": (h % 7 + k) % 7, "mode": ("cb", "read")[(h >> 3) & 1], "seg": (h >> 5) % 4,
+            e["variant"] = {"grid": (h % len(W.PAIR_GRID) + k) % len(W.PAIR_GRID), "mode": ("cb", "read")[(h >> 3) & 1], "seg": (h >> 5) % 4,
                             "recompress": bool((h >> 7) & 1), "seed": h % 100000 + k}
             out.append((e, path))
     return out
@@ -223,7 +223,7 @@ def random_session(job):
     ev = []
     words = ["alpha", "béta", "gamma ", "δelta", "\u4e2d\u6587", " ", "0123456789", "\n"]
     with LogCapture():
-        pair = W.PairReal(cfg, sc, grid=rng.randrange(7), mode=rng.choice(["cb", "read"]), seed=seed, record=rec,
+        pair = W.PairReal(cfg, sc, grid=rng.randrange(len(W.PAIR_GRID)), mode=rng.choice(["cb", "read"]), seed=seed, record=rec,
                           recompress=rng.random() < 0.5)
         try:
             last = {"c2s": [], "s2c": []}
@@ -273,7 +273,10 @@ def random_session(job):
                 last = {"c2s": list(obs["c2s"]), "s2c": list(obs["s2c"])}
             if pair.wire_errors:       # zlib-level conformance of the real sender: not a spec action, TLC rejects
                 ev.append({"a": "error:wire", "args": [pair.wire_errors[0][:200]], "obs": pair.proj()})
-            return {"id": tid, "cfg": cfg, "negotiated": pair.negotiated, "ev": ev}
+            # the specification's `deflate` is what was actually negotiated (the grid contains offers
+            # the server has to decline)
+            return {"id": tid, "cfg": {"deflate": pair.params is not None}, "enabled": cfg["deflate"],
+                    "negotiated": pair.negotiated, "ev": ev}
         finally:
             pair.close()
 
